@@ -15,7 +15,7 @@ from ..metrics_table import EXTREME_SCALES, NAMES, NEAR_DUPLICATE_ACCURATE, SQRT
 
 ID = "C06"
 RULE = ("Per case one (metric, length, input-class, memory-layout) cell: vectors drawn from the metric's domain "
-        "(lengths 1,2,3,4,5,8,17,64, for 4% of cases 200 / 784, for 0.5% 1024 / 2048; int32/int64 arrays of integer-valued vectors; near-duplicate pairs for the metrics of NEAR_DUPLICATE_ACCURATE; classes plain/zero-containing/integer/large), contiguous, strided-view or "
+        "(lengths 1,2,3,4,5,8,17,64, for 4% of cases 200 / 784, for 0.5% 1024 / 2048; int32/int64/uint8/uint16 arrays of integer-valued vectors; near-duplicate pairs for the metrics of NEAR_DUPLICATE_ACCURATE; classes plain/zero-containing/integer/large), contiguous, strided-view or "
         "read-only arrays; value compared with a 60-digit Decimal closed form within 1e-9*|ref|+1e-10*sum|terms|+1e-12. "
         "Registry cases: every candidate identifier x every model class: accepted <=> in registry, distance_fn is the "
         "registry entry. Non-trivial: length>=2 and x!=y; distinct = distinct (metric, vectors) hash.")
@@ -58,9 +58,10 @@ def generate(rng, tier, idx):
     r = rng.random()
     if scale == 1.0 and kind != "Q" and r < 0.12:
         # integer-valued vectors handed over as int32 / int64 arrays (zeros allowed where the EPSILON shift applies)
-        dtype = "i32" if rng.random() < 0.5 else "i64"
+        dtype = str(rng.choice(["i32", "i64", "u8", "u16"]))       # signed and unsigned (image-like) integer arrays
         n = int(rng.choice([1, 2, 3, 5, 8, 17]))
-        x, y = int_vec(rng, kind, n, bool(T[name][3])), int_vec(rng, kind, n, bool(T[name][3]))
+        nar = dtype in ("u8", "u16")
+        x, y = int_vec(rng, kind, n, bool(T[name][3]), narrow=nar), int_vec(rng, kind, n, bool(T[name][3]), narrow=nar)
         zeros = bool((x == 0).any() or (y == 0).any())
         layout = "contig"
     elif scale == 1.0 and r < 0.16 and name in NEAR_DUPLICATE_ACCURATE:
@@ -79,8 +80,8 @@ def generate(rng, tier, idx):
 
 
 def _layout(v, layout, dtype="f64"):
-    if dtype in ("i32", "i64"):
-        return np.array([int(t) for t in v], dtype=np.int32 if dtype == "i32" else np.int64)
+    if dtype in ("i32", "i64", "u8", "u16"):
+        return np.array([int(t) for t in v], dtype={"i32": np.int32, "i64": np.int64, "u8": np.uint8, "u16": np.uint16}[dtype])
     a = np.array(v, dtype=float)
     if layout == "strided":
         b = np.empty(2 * len(a), dtype=float)
@@ -127,12 +128,16 @@ def check(case):
         # value = sqrt(radicand): rounding of the radicand is amplified without bound near 0, so the comparison is made
         # on the radicands (got^2 vs ref^2) with the magnitude of the radicand's terms
         tol = 1e-9 * ref * ref + 1e-10 * mag * mag + (1e-12 if case.get("scale", 1.0) == 1.0 else 1e-300)
+        if case.get("dtype") in ("u8", "u16"):
+            tol = 1e-6 * ref * ref + 1e-7 * mag * mag + 1e-9       # narrow integer inputs: numpy evaluates some terms in float32
         bad = not (got >= 0 and abs(got * got - ref * ref) <= tol)
     else:
         tol = 1e-9 * abs(ref) + 1e-10 * mag + (1e-12 if case.get("scale", 1.0) == 1.0 else 1e-300)
+        if case.get("dtype") in ("u8", "u16"):
+            tol = 1e-6 * abs(ref) + 1e-7 * mag + 1e-9
         bad = not abs(got - ref) <= tol
     if bad:
-        res.violate("value", "C06/value", f"{name} len={len(x)} got {got!r} closed form {ref!r} (tol {tol:.3g}) x={x} y={y}")
+        res.violate("value", "C06/value/unsigned-dtype" if case.get("dtype") in ("u8", "u16") else "C06/value", f"{name} len={len(x)} got {got!r} closed form {ref!r} (tol {tol:.3g}) x={x} y={y}")
     res.nontrivial = len(x) >= 2 and x != y
     if case.get("scale", 1.0) != 1.0:
         res.see("extreme_scale_cases")
